@@ -289,6 +289,11 @@ func handleUpload(ucfg *tconfig.Config, uploadBucket storage.BucketHandle) conte
 			if err := json.NewDecoder(r.Body).Decode(&report); err != nil {
 				return content.Error(fmt.Errorf("invalid JSON payload: %v", err), http.StatusBadRequest)
 			}
+			// The size limit applies to the whole body, not only to the
+			// report at its front: read the rest so that it is enforced.
+			if _, err := io.Copy(io.Discard, r.Body); err != nil {
+				return content.Error(fmt.Errorf("invalid request body: %v", err), http.StatusBadRequest)
+			}
 			if err := validate(&report, ucfg); err != nil {
 				return content.Error(fmt.Errorf("invalid report: %v", err), http.StatusBadRequest)
 			}
